@@ -66,6 +66,22 @@ theorem gen_fromIpv6 (ip : Ip6F) : Gen.fromIpv6 ip = ipv6Fields ip := by
      · simp
      · qset_pointwise)
 
+/-- the nine flag bits only: a flag test or mask does not see anything above bit 8 -/
+theorem bit_add512 (k r m : Nat) (hm : m = 1 ∨ m = 2 ∨ m = 4 ∨ m = 8 ∨ m = 16 ∨ m = 32 ∨ m = 64 ∨ m = 128 ∨ m = 256) :
+    bit (512 * k + r) m = bit r m := by
+  unfold bit
+  rcases hm with h | h | h | h | h | h | h | h | h <;> subst h <;> congr 1 <;> omega
+
+theorem and_add512 (k r M : Nat) (hM : M < 512) : (512 * k + r) &&& M = r &&& M := by
+  have h1 : ((512 * k + r) &&& M) % 2 ^ 9 = ((512 * k + r) % 2 ^ 9) &&& (M % 2 ^ 9) := Nat.and_mod_two_pow
+  have h2 : (r &&& M) % 2 ^ 9 = (r % 2 ^ 9) &&& (M % 2 ^ 9) := Nat.and_mod_two_pow
+  have e : (512 * k + r) % 2 ^ 9 = r % 2 ^ 9 := by omega
+  have l1 : ((512 * k + r) &&& M) < 2 ^ 9 := Nat.lt_of_le_of_lt Nat.and_le_right (by omega)
+  have l2 : (r &&& M) < 2 ^ 9 := Nat.lt_of_le_of_lt Nat.and_le_right (by omega)
+  rw [Nat.mod_eq_of_lt l1] at h1
+  rw [Nat.mod_eq_of_lt l2] at h2
+  rw [h1, h2, e]
+
 theorem gen_tcpFromPacket (tcp : TcpF) : Gen.tcpFromPacket tcp = tcpFields tcp := by
   first
   | exact rfl
@@ -75,6 +91,25 @@ theorem gen_tcpFromPacket (tcp : TcpF) : Gen.tcpFromPacket tcp = tcpFields tcp :
      · simp [tcpType, F_SYN, F_ACK, F_FIN, F_RST]
      · simp
      · qset_pointwise)
+  | (-- another spelling of the flag tests (masks, merged conditions): the quirk set is a function of the nine flag bits and of three
+     -- zero tests, decided exhaustively
+     unfold Gen.tcpFromPacket tcpFields
+     simp only [Prod.mk.injEq]
+     refine ⟨trivial, ?_, ?_, ?_⟩
+     · simp [tcpType, F_SYN, F_ACK, F_FIN, F_RST]
+     · simp
+     · obtain ⟨k, r, hr, hf⟩ : ∃ k r, r < 512 ∧ tcp.flags = 512 * k + r := ⟨tcp.flags / 512, tcp.flags % 512, by omega, by omega⟩
+       simp only [hf, bne]
+       simp (disch := decide) only [bit_add512, and_add512]
+       generalize (tcp.seq == 0) = zs
+       generalize (tcp.ack == 0) = za
+       generalize (tcp.urgptr == 0) = zu
+       funext q
+       clear hf
+       revert zs za zu
+       revert r
+       unfold bit
+       cases q <;> decide +kernel)
 
 theorem gen_tcpPostInit (t : Nat) (q oq : QSet) : Gen.tcpPostInit t q oq = (tcpType t, q.union oq) := by
   first
